@@ -68,6 +68,11 @@ func vfAdminEnv(withReplset bool) (*vfEnv, *TextServerProtocol, *vfTConn) {
 
 // C13_admincmd: one administrative command with 0..3 arguments (the third from a reduced
 // alphabet); C13_admincmd3: all three arguments from the full alphabet.
+func init() {
+	vfHarnesses["C13_admincmd"] = vfH_C13_admincmd
+	vfHarnesses["C13_admincmd3"] = vfH_C13_admincmd3
+}
+
 func vfH_C13_admincmd()  { vfAdminCmd(false) }
 func vfH_C13_admincmd3() { vfAdminCmd(true) }
 
